@@ -516,7 +516,7 @@ Definition trace (c : cat) (tans : list (name * name)) :=
 
 (* ---- shelve.reset: which prime entries it reads ------------------------- *)
 (* ptab: the entries of (run, target, task, first alg version that has any),
-   else ALL entries of (run, target, task) *)
+   else nothing (ptab = {} since commit 4962e8d) *)
 Fixpoint first_nonempty (p : ptbl) (r : Z) (t k : nat) (algis : list nat) : option ptbl :=
   match algis with
   | [] => None
@@ -530,11 +530,23 @@ Fixpoint first_nonempty (p : ptbl) (r : Z) (t k : nat) (algis : list nat) : opti
 Definition reset_ptab (c : cat) (r : Z) (tn tskn algn : name) : option ptbl :=
   match alookup tn (t_target c), alookup tskn (t_task c) with
   | Some t, Some k =>
-    let ptab := psubset (prime c) (pfx3 r t k) in
     match first_nonempty (prime c) r t k
             (map snd (subset (t_alg c) algn [k])) with
     | Some tab => Some tab
-    | None => Some ptab
+    | None => Some []
+    end
+  | _, _ => None
+  end.
+
+(* reset() before commit 4962e8d: the default selection was every entry of
+   (run, target, task); kept for the refutation theorem *)
+Definition reset_ptab_old (c : cat) (r : Z) (tn tskn algn : name) : option ptbl :=
+  match alookup tn (t_target c), alookup tskn (t_task c) with
+  | Some t, Some k =>
+    match first_nonempty (prime c) r t k
+            (map snd (subset (t_alg c) algn [k])) with
+    | Some tab => Some tab
+    | None => Some (psubset (prime c) (pfx3 r t k))
     end
   | _, _ => None
   end.
